@@ -40,8 +40,13 @@ def main():
     os.rmdir(wt)
     out = {"id": sid, "src": str(src)}
     try:
-        rc, o, _ = run(["git", "-C", "/repo", "worktree", "add", "--detach", "-f", wt, "HEAD"])
+        base_commit = "HEAD"
+        for i, a in enumerate(args):
+            if a == "--base":
+                base_commit = args[i + 1]
+        rc, o, _ = run(["git", "-C", "/repo", "worktree", "add", "--detach", "-f", wt, base_commit])
         assert rc == 0, o
+        out["base_commit"] = run(["git", "-C", wt, "rev-parse", "--short", "HEAD"])[1].strip()
         env = dict(os.environ, PYTHONPATH=wt, OPENBLAS_NUM_THREADS="1")
         # keep the layout the demos were written for: <worktree>/seeded/<name>/demo.py
         dst = Path(wt) / "seeded" / src.name
